@@ -124,6 +124,12 @@ template <int DIM, int ORDER> struct Cfg {
         }
       }
     }
+    // the same object updated with same-shaped other data (after all the evaluations above filled its caches) evaluates like a fresh one
+    { Mat C2 = C; for (int r = 0; r < C2.rows(); ++r) for (int d = 0; d < DIM; ++d) C2(r, d) = -C2(r, d) + (double)((r + d) % 3);
+      std::vector<double> b2 = b; for (double &x : b2) x += 0.5;
+      PP q = pp; q.update(b2, C2, nc); PP fresh(b2, C2, nc);
+      for (double t : ts) for (int k = 0; k <= nc; ++k) { Vec a = q.evaluate(t + 0.5, k), w = fresh.evaluate(t + 0.5, k); int h = 0; Vec a2 = q.evaluate(t + 0.5, &h, k); ++c.st.comparisons;
+        if (!same(a, w) || !same(a2, w)) { fail("evaluate-after-update", fmt("t=%.17g k=%d: an updated object evaluates to %.17g, a fresh one with the same data to %.17g", t + 0.5, k, a(0), w(0))); return false; } } }
     return true;
   }
   // E2 confirmation: every sequence of hinted calls of length <= depth over the t alphabet, the hint carried along
